@@ -31,6 +31,8 @@ Example pin_tok_bin_from_urlsafe_base64 : tok_bin_from_urlsafe_base64 =
     [(t "call:isinstance");
      (t "call:.encode");
      (t "s:utf8");
+     (t "except:UnicodeError");
+     (t "raise:ValidationError");
      (t "call:isinstance");
      (t "return");
      (t "call:urlsafe_b64decode");
